@@ -1,5 +1,5 @@
 import Op2Proofs.SortLemmas
-import Op2Proofs.PathLemmas5
+import Op2Proofs.PathLemmas6
 import Op2Model.Path
 import Op2Model.Bits
 import Op2Model.Gen.Formulas
@@ -161,7 +161,7 @@ theorem gen_IsPowerOf2_eq (v : Nat) (hv : v < W32) : gen_IsPowerOf2 (v : Int) = 
 
 Side conditions are stated on the bytes.  "relative" is `p.head? ≠ some sep` (`Op2.Path.Rel`), which is
 exactly "no root component" (`Op2.Path.hasRootComponent_eq_false_iff`); a "plain name" is non-empty and
-free of `/` (`Op2.Path.Plain`).  Lemmas live in `Op2Proofs.PathLemmas`…`PathLemmas5`. -/
+free of `/` (`Op2.Path.Plain`).  Lemmas live in `Op2Proofs.PathLemmas`…`PathLemmas6`. -/
 
 open Op2.Path in
 /-- (a) path equality ignores a leading `./` on *every* relative path (the empty path included) -/
@@ -221,6 +221,33 @@ open Op2.Path in
 theorem C19_split_rejoin_no_root (p : Bytes) (hp : hasRootComponent p = false) :
     ∃ r, xAppend (getDirectory p) (getFilename p) = .ok r ∧ pathsAreEqual r p = true :=
   C19_split_rejoin p ((hasRootComponent_eq_false_iff p).mp hp)
+
+open Op2.Path in
+/-- (d) for *every* path `f` — with directories, root name, trailing slash, empty: whatever precedes it,
+    the replaced extension is matched in any letter case -/
+theorem C19_change_extension_matches_every_path (f s e e' : Bytes)
+    (hs : s ≠ [] ∧ dot ∉ s ∧ sep ∉ s) (he : e = s ∨ e = dot :: s) (hcase : eqCI e e' = true) :
+    extensionMatches (changeFileExtension f e) e' = true :=
+  chext_matches_any f e e' ((isExt_iff e).mpr ⟨s, hs.1, hs.2.1, hs.2.2, he⟩)
+    (eqCI_imp_toUpper_eq e e' hcase).symm
+
+open Op2.Path in
+/-- what `ChangeFileExtension` then reports as the extension: `"." ++ s` -/
+theorem C19_extension_after_change (f s e : Bytes)
+    (hs : s ≠ [] ∧ dot ∉ s ∧ sep ∉ s) (he : e = s ∨ e = dot :: s) :
+    getFileExtension (changeFileExtension f e) = dot :: s := by
+  have hx := (isExt_iff e).mpr ⟨s, hs.1, hs.2.1, hs.2.2, he⟩
+  have := extension_replaceExtension_any f e hx
+  have hb : extBody e = s := by
+    rcases he with rfl | rfl
+    · cases e with
+      | nil => exact absurd rfl hs.1
+      | cons c r =>
+        have hc : c ≠ dot := by intro h; apply hs.2.1; simp [h]
+        simp [extBody, hc]
+    · simp [extBody]
+  rw [hb] at this
+  exact this
 
 /-! ### the unrestricted statements of (b) and (c) are false (of the model and of the library alike:
 `path.fnappend 2f2f 62` answers `//b`, `path.rejoin 2f` answers `err` on both sides) -/
